@@ -175,8 +175,9 @@ def opNames : List (String × List String) := [
 
 
 /-- efuns whose file access is NOT mediated by valid_read/valid_write (compiler: load_object, #include,
-    inherit): only confinement is required of them -/
-def compileCalls : List String := ["load", "include", "inherit"]
+    inherit; "binary": a load with SaveBinaryDir configured and `#pragma save_binary`, where the harness prints
+    only the libc calls on unsafe paths): only confinement is required of them -/
+def compileCalls : List String := ["load", "include", "inherit", "binary"]
 
 structure Approval where
   w : Bool
